@@ -820,7 +820,7 @@ theorem encTzLike_cases (t u : TzCfg) (h : encTzLike t u) :
 
 theorem encrypted_tzReparse (hk : EncCfg c cfg) (d : Bytes) (hz : cfg.tz = .custom d) :
     tzFromBinary c (lastN (encRaw c cfg) c.tzSize) = .ok (.custom d) := by
-  obtain ⟨hd, _⟩ := hk.htz d hz
+  obtain ⟨hd, hpos⟩ := hk.htz d hz
   have : lastN (encRaw c cfg) c.tzSize = d := by
     unfold lastN encRaw
     rw [hz]
@@ -828,7 +828,7 @@ theorem encrypted_tzReparse (hk : EncCfg c cfg) (d : Bytes) (hz : cfg.tz = .cust
     rw [List.length_append, hd, Nat.add_sub_cancel, List.drop_left]
   rw [this]
   unfold tzFromBinary
-  rw [if_neg (by rw [hd]; omega), ← hd, List.take_length]
+  rw [if_neg (by omega), if_neg (by rw [hd]; omega), ← hd, List.take_length]
 
 theorem encrypted_disassemble (hc : EncCls c) (hk : EncCfg c cfg) (dek : Option Bytes)
     (p : Parsed) (hp : encTzLike p.tz cfg.tz) (hr : p.reloc = none) :
@@ -836,22 +836,26 @@ theorem encrypted_disassemble (hc : EncCls c) (hk : EncCfg c cfg) (dek : Option 
       = .ok { p with tz := cfg.tz, app := (canon c cfg dek).app, reloc := (canon c cfg dek).reloc } := by
   have hA := encrypted_app_ivt hk
   have hcl : cleanIvt (encU c cfg) = cleanIvt (appData cfg) := cleanIvt_updateIvt c cfg _ _ _ hA
+  have hal : align4 (cleanIvt (appData cfg)) = cleanIvt (appData cfg) := by
+    apply align4_of_aligned
+    rw [cleanIvt_length _ hA]
+    exact align4_length_mod cfg.app
   unfold disassemble
   rw [hc.hdisasm]
   rcases encTzLike_cases _ _ hp with ⟨d, x, hz, hpz⟩ | ⟨hpz, hz | hz⟩
   · simp only [hpz, encrypted_tzReparse hk d hz, bind, Except.bind]
     rw [← hz]
-    simp only [encrypted_dropTz c cfg, encrypted_disApp hc hk { p with tz := cfg.tz } hr, pure, Except.pure, hcl, canon,
+    simp only [encrypted_dropTz c cfg, encrypted_disApp hc hk { p with tz := cfg.tz } hr, pure, Except.pure, hcl, hal, canon,
       hc.hclean, if_true]
   · rw [hz] at hpz
     simp only [hpz, bind, Except.bind, pure, Except.pure]
     rw [← hz]
-    simp only [encrypted_dropTz c cfg, encrypted_disApp hc hk { p with tz := cfg.tz } hr, hcl, canon,
+    simp only [encrypted_dropTz c cfg, encrypted_disApp hc hk { p with tz := cfg.tz } hr, hcl, hal, canon,
       hc.hclean, if_true]
   · rw [hz] at hpz
     simp only [hpz, bind, Except.bind, pure, Except.pure]
     rw [← hz]
-    simp only [encrypted_dropTz c cfg, encrypted_disApp hc hk { p with tz := cfg.tz } hr, hcl, canon,
+    simp only [encrypted_dropTz c cfg, encrypted_disApp hc hk { p with tz := cfg.tz } hr, hcl, hal, canon,
       hc.hclean, if_true]
 
 theorem encTzLike_refl (t : TzCfg) : encTzLike t t := by
@@ -1078,7 +1082,8 @@ theorem encrypted_parse_tz (p : Parsed) (m : MixinName) (hp : provider m .mix_pa
   | enabled => simp [TzCfg.tag, tzEnabled, tzCustom, tzDisabled]
   | disabled => simp [TzCfg.tag, tzEnabled, tzCustom, tzDisabled]
   | custom d =>
-    obtain ⟨hd, _⟩ := hk.htz d hz
+    obtain ⟨hd, hpos⟩ := hk.htz d hz
+    have hpos' : c.tzSize ≠ 0 := by omega
     have hlen := encImg_len hn
     rw [hz] at hlen
     simp only [TzCfg.bytes] at hlen
@@ -1089,7 +1094,7 @@ theorem encrypted_parse_tz (p : Parsed) (m : MixinName) (hp : provider m .mix_pa
       omega
     simp only [TzCfg.tag, tzEnabled, tzCustom, tzDisabled, hc.hcert, hci, hsz, encrypted_certOffset hl hc hk signer hs,
       encrypted_hmacShift hl hc hk, bind, Except.bind, tzFromBinary, hsl]
-    simp [pure, Except.pure]
+    simp [pure, Except.pure, hpos']
 
 theorem encrypted_parse_ks (p : Parsed) (m : MixinName) (hp : provider m .mix_parse = some .Mbi_MixinKeyStore) :
     mixParse env c dek (encImg co c cfg signer) p m = .ok { p with keyStore := (canon c cfg dek).keyStore } := by
